@@ -1,12 +1,13 @@
 """
 Crash child of the stream C10.crash.
 
-Two uses:
+Three uses:
   * forked from the check (`c10.forked_run` → `child_main`): performs the run with write interposition — every
     file opened for writing below the scratch directory is wrapped; the text is split into `pieces` parts that
     reach the file one by one (write + flush); `os.replace` / `os.rename` are wrapped — and dies with
     `os._exit` (nothing buffered is flushed, like SIGKILL) at crash point number `die_at`.  With
     `die_at=None` it completes and reports the list of crash points through the pipe.
+  * `python c10_child.py --observe case.json dir out.json` in a child process with another locale (stream C10.locale).
   * `python c10_child.py case.json dir` under `strace -e inject=write:signal=SIGKILL:when=K`: a plain run, no
     interposition, nothing written but the report files; the kernel kills it at its K-th write.
 """
@@ -100,7 +101,24 @@ def child_main(case, top, die_at, pieces, wfd):
     return 0
 
 
+def observe_main(casefile, top, out):
+    """`python c10_child.py --observe case.json dir out.json` (stream C10.locale): the handler loop with its observer in THIS
+    process — whose locale the parent chose —, the observation written as (ASCII) JSON"""
+    import locale
+    import common  # noqa: F401
+    from props import c10
+    case = json.load(open(casefile))
+    runs = []
+    for i, specs in enumerate(case["runs"]):        # one handler loop per entry (a raising save stops a whole loop)
+        obs = c10.run_stream(case["events"], case["nb_threads"], [tuple(x) for x in specs], os.path.join(top, "r%d" % i))
+        runs.append(c10._intern(obs))
+    with open(out, "w") as fh:
+        json.dump({"runs": runs, "encoding": locale.getpreferredencoding(False)}, fh)
+
+
 def main():
+    if sys.argv[1] == "--observe":
+        return observe_main(*sys.argv[2:5])
     import common  # noqa: F401  (puts LCC_REPO / /repo first on sys.path)
     from props import c10
     case = json.load(open(sys.argv[1]))
